@@ -181,6 +181,66 @@ fn base_run<R: ModeTag, const B: Word>(ctx: &mut Ctx, big: &(u32, i64), small: &
     unary::<R, B>(ctx, &vu, &up);
 }
 
+/// long significands (beyond any closed universe): digit patterns x exponent gaps around the
+/// precision x precisions around the digit count, add/sub/mul/div in both operand orders
+fn shape_ops<R: ModeTag, const B: Word>(ctx: &mut Ctx, lens: &[usize]) {
+    let b = BigInt::from(B);
+    let mut sigs: Vec<(String, BigInt)> = vec![];
+    for &l in lens {
+        let top: BigInt = num_traits::Pow::pow(b.clone(), (l - 1) as u32);
+        let full: BigInt = &top * &b - BigInt::from(1); // all digits B-1
+        sigs.push((format!("{}d:max", l), full.clone()));
+        sigs.push((format!("{}d:min+1", l), &top + BigInt::from(1)));
+        sigs.push((format!("{}d:alt", l), &full / (&b + BigInt::from(1))));
+        sigs.push((format!("{}d:max-1", l), &full - BigInt::from(1)));
+        if l >= 3 {
+            sigs.push((format!("{}d:half", l), &full / BigInt::from(2) + BigInt::from(1)));
+        }
+    }
+    sigs.retain(|(_, s)| !(s % &b).is_zero() && !s.is_zero());
+    let smalls: Vec<BigInt> = vec![BigInt::from(1), BigInt::from(B - 1), &b * &b - BigInt::from(1), &b + BigInt::from(1)];
+    let gaps: [i64; 12] = [0, 1, 2, -1, -2, 3, 5, 8, 13, 21, 40, 90];
+    let (ns, nm, ng) = (sigs.len() as u64, smalls.len() as u64, gaps.len() as u64);
+    let name = format!("shape.B{}.{}", B, R::MODE.name());
+    let (sr, mr) = (&sigs, &smalls);
+    ctx.sweep(&name, ns * nm * ng * 4 * 5, |i, rec| {
+        let [si, mi, gi, sg, pi] = crate::h::unflatten(i, [ns, nm, ng, 4, 5]);
+        let (tag, s1) = &sr[si];
+        let l = digits_b(s1, B as u32);
+        let s2 = &mr[mi];
+        // gap g: the small operand's top digit sits g + (its own digits) places below ... relative
+        // to the last digit of the long operand (negative: overlaps)
+        let g = gaps[gi];
+        let p = [l, l + 1, l + 2, l + 8, 2 * l + 1][pi];
+        if digits_b(s2, B as u32) > p {
+            rec.hit("skipped:operand-longer-than-precision");
+            return; // the property's premise: operands fit the precision
+        }
+        let e2 = -(g + p as i64 - l as i64) - digits_b(s2, B as u32) as i64;
+        let (a_s, b_s) = (if sg & 1 == 1 { -s1.clone() } else { s1.clone() }, if sg & 2 == 2 { -s2.clone() } else { s2.clone() });
+        let (ra, rb) = (mk_repr::<B>(&a_s, 0), mk_repr::<B>(&b_s, e2));
+        let (xa, xb) = (Rat::int(a_s.clone()), Rat::scaled(&b_s, B as u32, e2));
+        let c = Context::<R>::new(p);
+        let bs_txt = b_s.to_string();
+        let bs_ref = &bs_txt;
+        let desc = |op: &'static str| move || format!("base {} p={} {}: ({} sign {}) {} ({}e{})", B, p, R::MODE.name(), tag, sg & 1, op, bs_ref, e2);
+        check::<R, B>(rec, "add", &desc("+"), p, &xa.add(&xb), guard(|| c.add(&ra, &rb)));
+        check::<R, B>(rec, "add", &desc("(rev)+"), p, &xa.add(&xb), guard(|| c.add(&rb, &ra)));
+        check::<R, B>(rec, "sub", &desc("-"), p, &xa.sub(&xb), guard(|| c.sub(&ra, &rb)));
+        check::<R, B>(rec, "sub", &desc("(rev)-"), p, &xb.sub(&xa), guard(|| c.sub(&rb, &ra)));
+        if gi < 4 {
+            check::<R, B>(rec, "mul", &desc("*"), p, &xa.mul(&xb), guard(|| c.mul(&ra, &rb)));
+            check::<R, B>(rec, "div", &desc("/"), p, &xa.div(&xb), guard(|| c.div(&ra, &rb)));
+            check::<R, B>(rec, "div", &desc("(rev)/"), p, &xb.div(&xa), guard(|| c.div(&rb, &ra)));
+        }
+        rec.hit(if e2.unsigned_abs() as usize > p + 2 { "tiny-operand-beyond-precision" } else { "overlapping-operands" });
+        rec.nontrivial();
+        rec.sample(|| desc("(+,-,*,/)")());
+    });
+    ctx.require_classes(&name, &["tiny-operand-beyond-precision", "overlapping-operands", "exact"]);
+    ctx.require_classes(&name, inexact_classes(R::MODE));
+}
+
 pub fn run(ctx: &mut Ctx) {
     ctx.rule = "for every base, mode and precision p in the listed sets: all ordered operand pairs (a, b) from the closed universes F(B,P,E) = { s*B^e : |s| < B^P, |e| <= E } whose digit counts fit p (quick: one operand ranges over the full exponent range, the other over |e| <= 1, both orders) through Context::{add,sub,mul,div}, and all single operands through sqr/cubic/inv/sqrt; each (value, flag) judged against the exact rational result (sqrt: exact comparison of squares) by the rounding contract of the property. non-trivial = both operands non-zero".into();
     ctx.assume("exact rational arithmetic on num_bigint::BigInt is the reference; the contract judged is exactly the property statement (ties in half modes are not judged beyond <= 1/2 ulp)");
@@ -232,6 +292,17 @@ pub fn run(ctx: &mut Ctx) {
         let p16: Vec<usize> = vec![1, 2];
         let (big16, small16) = ((1u32, 4i64), (1u32, 1i64));
         for_all_modes!(base_run, 16, (ctx, &big16, &small16, &p16, false));
+    }
+    // long significands
+    let l2: Vec<usize> = if quick { vec![1, 2, 3, 8, 19, 20, 21, 33, 64, 65] } else { vec![1, 2, 3, 5, 8, 13, 19, 20, 21, 24, 32, 33, 53, 63, 64, 65, 70, 128, 129] };
+    for_all_modes!(shape_ops, 2, (ctx, &l2));
+    let l10: Vec<usize> = if quick { vec![1, 2, 5, 9, 10, 19, 20, 21] } else { vec![1, 2, 3, 5, 9, 10, 11, 19, 20, 21, 38, 39, 40] };
+    for_all_modes!(shape_ops, 10, (ctx, &l10));
+    if !quick {
+        let l3: Vec<usize> = vec![1, 2, 5, 20, 40, 41];
+        for_all_modes!(shape_ops, 3, (ctx, &l3));
+        let l16: Vec<usize> = vec![1, 2, 8, 16, 17];
+        for_all_modes!(shape_ops, 16, (ctx, &l16));
     }
     ctx.bound("bases", serde_json::json!(if quick { vec![2, 10, 3, 16] } else { vec![2, 10, 3, 16, 36] }));
 }
